@@ -161,6 +161,46 @@ fn stress(seconds: u64) -> i32 {
         out.sort();
         out
     };
+    // ---- phase 0: cold starts.  A lazily initialised table or cache gets exactly one racy first use per PROCESS, and a
+    // sequential reference run uses that chance up.  So: fresh child processes that replay the scripts with take_action
+    // only (no query), let 12 threads make the process's very first queries at the same moment (states with a pending
+    // push / possible pull first), and compute the sequential reference only afterwards. ----
+    let cold_children = if seconds >= 10 { 300 } else { 60 };
+    {
+        let file = std::env::temp_dir().join(format!("mirih-scripts-{}.txt", std::process::id()));
+        let text: String = scripts.iter().map(|a| a.iter().map(|x| x.to_string()).collect::<Vec<_>>().join(" ")).collect::<Vec<_>>().join("\n");
+        std::fs::write(&file, text).expect("write scripts file");
+        let exe = std::env::current_exe().expect("own path");
+        let bad = std::sync::atomic::AtomicUsize::new(0);
+        let next = std::sync::atomic::AtomicUsize::new(0);
+        std::thread::scope(|sc| {
+            // four children at a time (each runs 12 threads)
+            for _ in 0..4 {
+                sc.spawn(|| loop {
+                    let k = next.fetch_add(1, std::sync::atomic::Ordering::Relaxed);
+                    if k >= cold_children || bad.load(std::sync::atomic::Ordering::Relaxed) > 0 {
+                        break;
+                    }
+                    let out = std::process::Command::new(&exe).arg("cold").arg(&file).arg(k.to_string()).output();
+                    match out {
+                        Ok(o) if o.status.success() => {}
+                        Ok(o) => {
+                            eprintln!("{}", String::from_utf8_lossy(&o.stderr).lines().filter(|l| l.contains("MIRIH-STRESS")).collect::<Vec<_>>().join("\n"));
+                            eprintln!("MIRIH-STRESS: cold-start child {} failed (exit {:?})", k, o.status.code());
+                            bad.fetch_add(1, std::sync::atomic::Ordering::Relaxed);
+                        }
+                        Err(e) => {
+                            eprintln!("mirih: cannot run cold-start child: {}", e);
+                        }
+                    }
+                });
+            }
+        });
+        let _ = std::fs::remove_file(&file);
+        if bad.load(std::sync::atomic::Ordering::Relaxed) > 0 {
+            return 1;
+        }
+    }
     let pools: Vec<Vec<GameState>> = scripts.iter().map(|a| replay(a)).collect();
     let ref_light: Vec<Vec<Light>> = pools.iter().map(|p| p.iter().map(|s| light(s)).collect()).collect();
     let ref_full: Vec<Vec<Vec<(usize, u64)>>> = pools.iter().map(|p| p.iter().map(|s| full(s, 0)).collect()).collect();
@@ -254,12 +294,65 @@ fn stress(seconds: u64) -> i32 {
         }
         rounds += 1;
     }
-    println!("mirih stress ok rounds={} state_expansions_compared={}", rounds, checked);
+    println!("mirih stress ok cold_start_processes={} rounds={} state_expansions_compared={}", cold_children, rounds, checked);
+    0
+}
+
+/// One cold-start child: see phase 0 of `stress`.
+fn cold(file: &str, k: usize) -> i32 {
+    use std::sync::{Arc, Barrier};
+    let text = std::fs::read_to_string(file).expect("scripts file");
+    let scripts: Vec<Vec<Action>> = text.lines().map(|l| l.split_whitespace().map(|t| t.parse::<Action>().expect("action")).collect()).collect();
+    // this child looks at one script (round robin), replayed WITHOUT any query
+    let acts = &scripts[k % scripts.len()];
+    let mut states = vec![GameState::initial()];
+    for a in acts {
+        let t = states.last().unwrap().take_action(a);
+        states.push(t);
+    }
+    let mut states = states.split_off(32);
+    // states with something pending first (plain accessor, not a query)
+    states.sort_by_key(|s| match s.as_play_phase().map(|p| p.push_pull_state()) {
+        Some(PushPullState::MustCompletePush(_, _)) => 0,
+        Some(PushPullState::PossiblePull(_, _)) => 1,
+        _ => 2,
+    });
+    let n = states.len().min(48);
+    let shared: Arc<Vec<GameState>> = Arc::new(states);
+    type Light = (Vec<Action>, Vec<Action>, Option<Terminal>, bool, u64);
+    fn light(s: &GameState) -> Light {
+        (s.valid_actions(), s.valid_actions_no_rep(), s.is_terminal(), s.can_pass(true), s.transposition_hash())
+    }
+    let threads = 12usize;
+    let barrier = Arc::new(Barrier::new(threads));
+    let mut hs = vec![];
+    for t in 0..threads {
+        let (shared, barrier) = (shared.clone(), barrier.clone());
+        hs.push(std::thread::spawn(move || {
+            barrier.wait();
+            // thread t starts at state (t + k) so that the first queries of the process hit different states
+            (0..n).map(|j| { let i = (j + t + k) % n; (i, light(&shared[i])) }).collect::<Vec<_>>()
+        }));
+    }
+    let results: Vec<Vec<(usize, Light)>> = hs.into_iter().map(|h| h.join().expect("thread")).collect();
+    // sequential reference afterwards
+    let reference: Vec<Light> = (0..n).map(|i| light(&shared[i])).collect();
+    for (t, r) in results.iter().enumerate() {
+        for (i, l) in r.iter() {
+            if *l != reference[*i] {
+                eprintln!("MIRIH-STRESS: cold start, thread {}: the first concurrent queries of the process on state {} differ from sequential queries", t, i);
+                return 1;
+            }
+        }
+    }
     0
 }
 
 fn main() {
     let args: Vec<String> = std::env::args().collect();
+    if args.get(1).map(|s| s.as_str()) == Some("cold") {
+        std::process::exit(cold(&args[2], args[3].parse().unwrap_or(0)));
+    }
     if args.get(1).map(|s| s.as_str()) == Some("stress") {
         std::process::exit(stress(args.get(2).and_then(|s| s.parse().ok()).unwrap_or(4)));
     }
